@@ -6,7 +6,7 @@ from . import common
 
 
 # modules with a gen() that regenerates coq/theories/Gen/*.v from /repo
-GEN_MODULES = ["c20", "c12", "c13"]
+GEN_MODULES = ["c20", "c12", "c13", "c02"]
 
 
 def main():
@@ -19,6 +19,16 @@ def main():
             importlib.import_module("harness." + name).gen()
         ok, log = common.coq_make(jobs=16)
         print(log[-3000:])
+        sys.exit(0 if ok else 1)
+    if pid == "coqchk":
+        import json, os
+        ok, summary, raw = common.coqchk_all()
+        os.makedirs(os.path.join(common.VERIF, "reports"), exist_ok=True)
+        with open(os.path.join(common.VERIF, "reports", "coqchk.json"), "w") as fh:
+            json.dump(summary, fh, indent=1)
+        print("coqchk: %d modules, rc=%d, %d axioms (%d declared by this development), other sections: %s" % (
+            len(summary["modules"]), summary["returncode"], len(summary["axioms"]), len(summary["axioms_declared_by_this_development"]),
+            {k: len(v) for k, v in summary["other_sections"].items()}))
         sys.exit(0 if ok else 1)
     mod = importlib.import_module("harness." + pid.lower())
     common.main_wrapper(pid, mod.main, sys.argv[2:])
